@@ -66,7 +66,7 @@ def _find_occ(text, anchor, k, what):
     return idxs[k - 1]
 
 
-def _process_item(kind, head, sub, meta):
+def _process_item(kind, head, sub, meta, occ=None):
     """kind in fn/fragment/arm; head = directive tail; sub = list of (directive, tail, lines)."""
     parts = head.split()
     rel, path = parts[0], parts[1]
@@ -94,7 +94,7 @@ def _process_item(kind, head, sub, meta):
         t = _ticks(head)
         body = src[f["body_open"]:f["end"]]
         bm = m[f["body_open"]:f["end"]]
-        i0 = _find_occ(body, t[0], None, what)
+        i0 = _find_occ(body, t[0], occ, what)
         arrow = bm.find("=>", i0) if "|" not in t[0][:1] else -1
         if t[0].lstrip().startswith("|") or t[0].lstrip().startswith("move"):
             # closure: body starts at first `{` after the parameter list
@@ -105,10 +105,25 @@ def _process_item(kind, head, sub, meta):
             k = arrow + 2
             while bm[k] in " \t\n":
                 k += 1
-            if bm[k] != "{":
-                raise ExtractError(f"{what}: arm body is not a block")
             ob = k
-        cb = R.match_bracket(bm, ob)
+        if bm[ob] == "{":
+            cb = R.match_bracket(bm, ob)
+        else:
+            # expression arm: up to the `,` at depth 0 (exclusive)
+            d = 0
+            cb = ob
+            while True:
+                c = bm[cb]
+                if c in "([{":
+                    d += 1
+                elif c in ")]}":
+                    if d == 0:
+                        break
+                    d -= 1
+                elif c == "," and d == 0:
+                    break
+                cb += 1
+            cb -= 1
         a = f["body_open"] + ob
         b = f["body_open"] + cb + 1
         text = src[a:b]
@@ -239,9 +254,10 @@ def _expand(path, meta):
                                       drops=["D1: attributes and comments", "D4: pub(crate)/pub(super)/private -> pub"]))
             segs.append(Seg(txt + "\n", "code", dict(rec=dict(file=rel, item=name, line=src.count("\n", 0, t["start"]) + 1), off=0)))
             i += 1
-        elif re.match(r"//@(fn|fragment|arm) ", s):
-            mm = re.match(r"//@(fn|fragment|arm) (.*)$", s)
-            kind, head = mm.group(1), mm.group(2)
+        elif re.match(r"//@(fn|fragment|arm)(#\d+)? ", s):
+            mm = re.match(r"//@(fn|fragment|arm)(?:#(\d+))? (.*)$", s)
+            kind, head = mm.group(1), mm.group(3)
+            occ = int(mm.group(2)) if mm.group(2) else None
             sub = []
             i += 1
             cur = None
@@ -259,7 +275,7 @@ def _expand(path, meta):
             if i >= n:
                 raise ExtractError(f"{tname}: missing //@end")
             i += 1
-            segs += _process_item(kind, head, sub, meta)
+            segs += _process_item(kind, head, sub, meta, occ)
             segs.append(Seg("\n", "tmpl"))
         else:
             segs.append(Seg(ln + "\n", "tmpl", dict(file=tname, line=i + 1)))
